@@ -201,9 +201,13 @@ def createDataFrame (s : Store) (blk : ObjId) (name type id created : String) (c
   | .error e => (s, .error e)
   | .ok () =>
   if (blkFindKey s blk "D" name).isSome then (s, .error .duplicateName) else
-  -- one pass over the columns: unsupported type → invalid_argument, repeated name → ConsistencyError
+  if colNames.isEmpty then (s, .error .stdInvalidArgument) else
+  -- one pass over the columns: unsupported type or Nothing → invalid_argument, empty name → EmptyString, repeated name → ConsistencyError
   let rec scan (seen : List String) : List String → List String → Option Err
-    | n :: ns, t :: ts => if !variantType t then some .stdInvalidArgument else if seen.contains n then some .consistencyError else scan (n :: seen) ns ts
+    | n :: ns, t :: ts =>
+      if !variantType t || t == "Nothing" then some .stdInvalidArgument
+      else if n.isEmpty then some .emptyString
+      else if seen.contains n then some .consistencyError else scan (n :: seen) ns ts
     | _, _ => none
   match scan [] colNames colTypes with
   | some e => (s, .error e)
